@@ -266,6 +266,7 @@ func c19Eval(c c19Case) (ok bool, sig, detail string) {
 		if err != nil {
 			return false, "selector-rejected", fmt.Sprintf("Selector(%q) is rejected: %v", c.Sel, err)
 		}
+		engine.Outcome(fmt.Sprintf("sel|%s|%v", c.Sel, got))
 		if want := ref.accepts(f); got != want {
 			return false, "selector", fmt.Sprintf("Selector(%q) on %s gives %v, reference %v", c.Sel, c.Feat, got, want)
 		}
